@@ -375,7 +375,9 @@ def e7_e8(rep, src):
             raise Anchor("FromRelationVisitor::%s not found" % nm)
         from .canon import canon_view
 
-        f = canon_view(fns[nm], src, keep=CANON_KEEP)  # named locals (`let cte_name = ..`) and extracted private helpers are transparent
+        from .canon import inline_local_closures
+
+        f = canon_view(inline_local_closures(fns[nm]), src, keep=CANON_KEEP)  # named locals (`let cte_name = ..`), local closures and extracted private helpers are transparent
         set_cm_locals(f)
         node = [p["pat"]["name"] for p in f.params if not p.get("self") and p["pat"]["k"] == "ident"][0]
         key = "FromRelationVisitor::" + nm
